@@ -117,6 +117,23 @@ func c10(e *Env) {
 	for _, n := range w.Nodes {
 		contact = append(contact, n.Addr)
 	}
+	// Some backends span several data centers; the proxy's contact point is then one particular
+	// node (not necessarily the one with the lowest address), and where nothing is configured the
+	// proxy's local data center is that node's.
+	backendDC := "dc1"
+	if c.Choose("multidc", 3) == 2 {
+		cfg.Hosts = 2 + c.Choose("mdchosts", 2)
+		for len(w.Nodes) < cfg.Hosts {
+			w.AddNode(true)
+		}
+		for i, n := range w.Nodes {
+			n.DC = []string{"dc-b", "dc-a", "dc-c"}[(i+c.Choose("dcrot", 3))%3]
+		}
+		cp := w.Nodes[c.Choose("contactnode", len(w.Nodes))]
+		contact = []string{cp.Addr}
+		backendDC = cp.DC
+		e.Res.Stats["probe.c10.multi_dc_backend"]++
+	}
 	// the shared peer list
 	nPeers := c.Choose("npeers", 17)
 	explicitDC := c.Choose("explicitdc", 2) == 1
@@ -192,7 +209,7 @@ func c10(e *Env) {
 		}
 		in.localDC = in.self.dc
 		if in.localDC == "" {
-			in.localDC = "dc1" // the backend's local data center
+			in.localDC = backendDC // the data center of the backend node the proxy is connected to
 		}
 		v := primitive.ProtocolVersion4
 		if c.Choose("clv3", 3) == 2 {
